@@ -284,8 +284,10 @@ def check(pid, tier, seed):
             hacc, hrej, st2 = val("hold", list(rej))
             tstats.append(st2)
             for x, info in rej.items():
-                if x in hrej or last_event(info) in ("Deadlock", "Crash"):
-                    continue   # attributed to C01 / C02
+                if x in hrej or last_event(info) == "Crash":
+                    continue   # attributed to C01
+                # a Deadlock leaves a parked request that is never granted: that request is starved, which C03 rules out
+                # as well ("neither readers nor writers can be starved"), so C02 and C03 both own it
                 verdict.violation(sig_of("lock", info), {"mode": "lazy", "matched": info["matched"], "next": info["next"]},
                                   {"component": "lock", "xid": x, "source": src[x], "events": info["events"]})
     elif pid == "C12":
